@@ -1,131 +1,13 @@
-// Unit `npn`: NPN4 canonicalisation and pattern transformation (C21), crates/synthesizer/src/aig/npn4.rs.
+// Unit `npn`, Kani job: truth-table transforms and pattern transformation of crates/synthesizer/src/aig/npn4.rs.
 //
 // Everything above this file in the generated crate is cut from /repo (crate root): Tt4, VAR_TT, MAX_ANDS, ALL_PERMS,
-// perm_tt, flip_inputs, NpnTransform (+ IDENTITY, apply), npn_canonical, PatEdge, AigPattern (+ size, eval, tt),
-// transform_pattern. `perm_table` (OnceLock + 3 MB Vec, 24*65536 initialiser iterations) is NOT linked; its place is taken
-// by the accessor below, which *is* the assumed contract `table[i*65536+tt] == perm_tt(tt, ALL_PERMS[i])`.
-
-// ---------------------------------------------------------------------------------------------------------
-// trusted accessor standing in for `perm_table()`; `npn_canonical` only does `let table = perm_table();` and
-// `table[pi * 65536 + tt as usize]`, so its body text compiles unchanged against this.
-// ---------------------------------------------------------------------------------------------------------
-pub struct VpPermTable;
-impl std::ops::Index<usize> for VpPermTable {
-    type Output = Tt4;
-    fn index(&self, idx: usize) -> &Tt4 {
-        let (i, tt) = (idx / 65536, idx % 65536);
-        assert!(i < 24, "perm_table index out of bounds");
-        Box::leak(Box::new(perm_tt(tt as Tt4, ALL_PERMS[i])))
-    }
-}
-static VP_PERM_TABLE: VpPermTable = VpPermTable;
-fn perm_table() -> &'static VpPermTable {
-    &VP_PERM_TABLE
-}
-
-// ---------------------------------------------------------------------------------------------------------
-// independent definitions, written from the doc comments ("Bit m is the function value when inputs encode m
-// (bit 0 -> x0, bit 3 -> x3)"; NpnTransform: "perm[i] = old variable index assigned to new position i",
-// "Bit i set => negate the i-th *new* (post-perm) input variable", "Whether to negate the output") as evaluation
-// of a Boolean function of four variables on one assignment.
-// ---------------------------------------------------------------------------------------------------------
-pub mod spec {
-    use crate::{AigPattern, PatEdge, Tt4};
-
-    /// the assignment encoded by minterm number m
-    pub fn assignment(m: u8) -> [bool; 4] {
-        [m & 1 != 0, m & 2 != 0, m & 4 != 0, m & 8 != 0]
-    }
-    /// f(x0, x1, x2, x3)
-    pub fn value_at(f: Tt4, x: [bool; 4]) -> bool {
-        let m = (x[0] as u32) + 2 * (x[1] as u32) + 4 * (x[2] as u32) + 8 * (x[3] as u32);
-        (f as u32 >> m) & 1 == 1
-    }
-    pub fn is_perm(p: [u8; 4]) -> bool {
-        p[0] < 4 && p[1] < 4 && p[2] < 4 && p[3] < 4 && p[0] != p[1] && p[0] != p[2] && p[0] != p[3] && p[1] != p[2] && p[1] != p[3] && p[2] != p[3]
-    }
-    /// g = the function obtained from f by (input permutation p, input negation mask neg, output negation o):
-    /// g(y) = o XOR f(z) where old variable p[i] is fed from new input i, negated if bit i of neg is set:  z[p[i]] = y[i] XOR neg_i
-    pub fn npn_value_at(f: Tt4, p: [u8; 4], neg: u8, o: bool, y: [bool; 4]) -> bool {
-        let mut z = [false; 4];
-        z[p[0] as usize] = y[0] ^ (neg & 1 != 0);
-        z[p[1] as usize] = y[1] ^ (neg & 2 != 0);
-        z[p[2] as usize] = y[2] ^ (neg & 4 != 0);
-        z[p[3] as usize] = y[3] ^ (neg & 8 != 0);
-        o ^ value_at(f, z)
-    }
-    /// the same through the inverse permutation, as perm_tt's second doc line puts it: z_j = y_{perm_inv[j]}
-    pub fn inv_of(p: [u8; 4]) -> [u8; 4] {
-        let find = |j: u8| -> u8 { if p[0] == j { 0 } else if p[1] == j { 1 } else if p[2] == j { 2 } else { 3 } };
-        [find(0), find(1), find(2), find(3)]
-    }
-    /// whole table of g, minterm by minterm
-    pub fn npn_table(f: Tt4, p: [u8; 4], neg: u8, o: bool) -> Tt4 {
-        let mut g: Tt4 = 0;
-        let mut m = 0u8;
-        while m < 16 {
-            if npn_value_at(f, p, neg, o, assignment(m)) {
-                g |= 1 << m;
-            }
-            m += 1;
-        }
-        g
-    }
-
-    /// well-formed pattern, read off AigPattern::eval: gate k (node 4+k) may only reference nodes < 4+k
-    /// (eval indexes `values`, which holds 4+k entries at that point), the output references an existing node.
-    /// The library builder's patterns satisfy this (a_node, b_node < 4 + ands.len(), out_node < 4 + ands.len()).
-    pub fn wf_pattern(p: &AigPattern) -> bool {
-        let n = p.ands.len();
-        let mut k = 0;
-        while k < n {
-            let (a, b) = p.ands[k];
-            if a.0 as usize >= 4 + k || b.0 as usize >= 4 + k {
-                return false;
-            }
-            k += 1;
-        }
-        (p.output.0 as usize) < 4 + n
-    }
-    /// value of a pattern on one assignment, gate by gate (independent of AigPattern::eval's bit-parallel form)
-    pub fn pattern_value_at(p: &AigPattern, x: [bool; 4]) -> bool {
-        let mut v = [x[0], x[1], x[2], x[3], false, false, false];
-        let n = p.ands.len();
-        let mut k = 0;
-        while k < n && k < 3 {
-            let (a, b) = p.ands[k];
-            v[4 + k] = (v[a.0 as usize] ^ a.1) & (v[b.0 as usize] ^ b.1);
-            k += 1;
-        }
-        v[p.output.0 as usize] ^ p.output.1
-    }
-
-    /// symbolic well-formed pattern with at most MAX_ANDS (= 3) gates; only primitives are drawn
-    pub fn any_pattern() -> AigPattern {
-        let n: u8 = kani::any();
-        let nodes: [u8; 6] = kani::any();
-        let negs: [bool; 6] = kani::any();
-        let out: u8 = kani::any();
-        let out_neg: bool = kani::any();
-        kani::assume(n <= crate::MAX_ANDS);
-        let mut ands = Vec::with_capacity(3);
-        let mut k = 0u8;
-        while k < 3 {
-            if k < n {
-                let (a, b) = (nodes[2 * k as usize], nodes[2 * k as usize + 1]);
-                kani::assume(a < 4 + k && b < 4 + k);
-                ands.push((PatEdge(a, negs[2 * k as usize]), PatEdge(b, negs[2 * k as usize + 1])));
-            }
-            k += 1;
-        }
-        kani::assume(out < 4 + n);
-        AigPattern { ands, output: PatEdge(out, out_neg) }
-    }
-}
-
+// perm_tt, flip_inputs, NpnTransform (+ IDENTITY, apply), PatEdge, AigPattern (+ size, eval, tt), transform_pattern;
+// then units/npn/spec.rs (independent minterm-evaluation definitions). npn_canonical and perm_table are proved in the
+// Verus job of this unit (units/npn/verus_spec.rs); the three facts that job takes as axioms are proved HERE for the
+// full u16 domain: perm_tt / flip_inputs are total (no panic, loops bounded) and IDENTITY.apply(tt) == tt.
 pub mod harness {
     use crate::spec::*;
-    use crate::{flip_inputs, npn_canonical, perm_tt, transform_pattern, AigPattern, NpnTransform, PatEdge, Tt4, ALL_PERMS, MAX_ANDS, VAR_TT};
+    use crate::{flip_inputs, perm_tt, transform_pattern, AigPattern, NpnTransform, PatEdge, Tt4, ALL_PERMS, MAX_ANDS, VAR_TT};
 
     fn any_perm_index() -> usize {
         let pi: u8 = kani::any();
@@ -140,10 +22,35 @@ pub mod harness {
     fn bit(t: Tt4, m: u8) -> bool {
         (t >> m) & 1 == 1
     }
+    /// symbolic transform of the NPN group: a row of ALL_PERMS, ANY u8 negation mask (only its low 4 bits matter), any output polarity
+    fn any_transform() -> NpnTransform {
+        let p = ALL_PERMS[any_perm_index()];
+        let neg: u8 = kani::any();
+        let o: bool = kani::any();
+        NpnTransform { perm: p, in_neg: neg, out_neg: o }
+    }
+    /// symbolic well-formed pattern with exactly n gates (n is a concrete number in every harness; all of 0..=MAX_ANDS are covered);
+    /// only primitives are drawn, always the same number of them, so native replay works
+    fn any_pattern(n: u8) -> AigPattern {
+        let nodes: [u8; 6] = kani::any();
+        let negs: [bool; 6] = kani::any();
+        let out: u8 = kani::any();
+        let out_neg: bool = kani::any();
+        let mut ands = Vec::with_capacity(3);
+        let mut k = 0u8;
+        while k < n {
+            let (a, b) = (nodes[2 * k as usize], nodes[2 * k as usize + 1]);
+            kani::assume(a < 4 + k && b < 4 + k);
+            ands.push((PatEdge(a, negs[2 * k as usize]), PatEdge(b, negs[2 * k as usize + 1])));
+            k += 1;
+        }
+        kani::assume(out < 4 + n);
+        AigPattern { ands, output: PatEdge(out, out_neg) }
+    }
 
     /// ALL_PERMS: every row is a permutation of {0,1,2,3}, rows are pairwise distinct, and every permutation occurs
     /// (so ALL_PERMS x 16 x 2 is the whole NPN group, 768 transforms)
-    #[vp_proof(5)]
+    #[vp_proof(25)]
     pub fn all_perms_are_the_24_permutations() {
         let (i, j) = (any_perm_index(), any_perm_index());
         assert!(is_perm(ALL_PERMS[i]), "a row of ALL_PERMS is not a permutation of 0..4");
@@ -162,12 +69,13 @@ pub mod harness {
         }
         assert!(found, "a permutation of 0..4 is missing from ALL_PERMS");
     }
-    /// VAR_TT[i] is the table of the projection x_i
+    /// VAR_TT[i] is the table of the projection x_i; MAX_ANDS is what the pattern harnesses cover
     #[vp_proof(5)]
     pub fn var_tt_are_projections() {
         let m = any_minterm();
         let x = assignment(m);
         assert!(bit(VAR_TT[0], m) == x[0] && bit(VAR_TT[1], m) == x[1] && bit(VAR_TT[2], m) == x[2] && bit(VAR_TT[3], m) == x[3]);
+        assert!(MAX_ANDS == 3, "the pattern harnesses cover 0..=3 gates; MAX_ANDS changed");
     }
     /// perm_tt(tt,p)(y) == tt(z) with z[p[i]] = y[i], for every tt, every row p of ALL_PERMS, every minterm;
     /// bit m of the result is bit sum_i ((m>>i)&1) << p[i] of tt; and the inverse-permutation reading of the doc comment
@@ -196,86 +104,159 @@ pub mod harness {
         assert!(bit(r, m) == npn_value_at(tt, [0, 1, 2, 3], k, false, assignment(m)), "flip_inputs: new(y) != old(y ^ mask)");
     }
     /// NpnTransform::apply == output negation o after input negation after permutation, as documented, for every
-    /// transform of the group and every tt: t.apply(f)(y) == o XOR f(z), z[perm[i]] = y[i] XOR neg_i
+    /// transform of the group and every tt: t.apply(f)(y) == o XOR f(z), z[perm[i]] = y[i] XOR neg_i; IDENTITY is the identity
     #[vp_proof(17)]
     pub fn apply_is_the_documented_composition() {
         let tt: Tt4 = kani::any();
-        let p = ALL_PERMS[any_perm_index()];
-        let neg: u8 = kani::any();
-        let o: bool = kani::any();
-        let t = NpnTransform { perm: p, in_neg: neg, out_neg: o };
+        let t = any_transform();
         let r = t.apply(tt);
         let m = any_minterm();
-        assert!(bit(r, m) == npn_value_at(tt, p, neg, o, assignment(m)), "apply: t.apply(f)(y) != o ^ f(z), z[perm[i]] = y[i] ^ neg_i");
-        let fo = flip_inputs(perm_tt(tt, p), neg);
-        assert!(r == if o { !fo } else { fo }, "apply is not flip_output(flip_inputs(perm_tt(tt, perm), in_neg), out_neg)");
-        assert!(NpnTransform::IDENTITY.apply(tt) == tt);
+        assert!(bit(r, m) == npn_value_at(tt, t.perm, t.in_neg, t.out_neg, assignment(m)), "apply: t.apply(f)(y) != o ^ f(z), z[perm[i]] = y[i] ^ neg_i");
+        let fo = flip_inputs(perm_tt(tt, t.perm), t.in_neg);
+        assert!(r == if t.out_neg { !fo } else { fo }, "apply is not flip_output(flip_inputs(perm_tt(tt, perm), in_neg), out_neg)");
     }
-    /// AigPattern::eval on VAR_TT computes the pattern's function (gate-by-gate evaluation on each assignment)
+    /// axiom A3 of the Verus job: NpnTransform::IDENTITY.apply(tt) == tt for every tt, and IDENTITY is in the group
     #[vp_proof(17)]
-    pub fn pattern_tt_is_its_function() {
-        let pat = any_pattern();
+    pub fn identity_transform_is_identity() {
+        let tt: Tt4 = kani::any();
+        assert!(NpnTransform::IDENTITY.apply(tt) == tt, "IDENTITY.apply(tt) != tt");
+        assert!(flip_inputs(perm_tt(tt, [0, 1, 2, 3]), 0) == tt);
+        assert!(NpnTransform::IDENTITY.perm == ALL_PERMS[0] && NpnTransform::IDENTITY.in_neg == 0 && !NpnTransform::IDENTITY.out_neg);
+    }
+
+    fn pattern_tt(n: u8) {
+        let pat = any_pattern(n);
         let m = any_minterm();
-        assert!(wf_pattern(&pat) && pat.size() <= MAX_ANDS as usize);
+        assert!(wf_pattern(&pat) && pat.size() == n as usize);
         assert!(bit(pat.tt(), m) == pattern_value_at(&pat, assignment(m)), "AigPattern::tt differs from evaluating the gates");
     }
-    /// transform_pattern(pat,t).tt() == t.apply(pat.tt()) for every transform and every well-formed pattern with <= MAX_ANDS gates;
-    /// the result is well-formed, has the same number of gates, and computes o ^ pat(z) on every assignment
+    /// AigPattern::eval on VAR_TT computes the pattern's function (gate-by-gate evaluation on each assignment), 0..=3 gates
     #[vp_proof(17)]
-    pub fn transform_pattern_commutes_with_apply() {
-        let pat = any_pattern();
-        let p = ALL_PERMS[any_perm_index()];
-        let neg: u8 = kani::any();
-        let o: bool = kani::any();
-        let t = NpnTransform { perm: p, in_neg: neg, out_neg: o };
+    pub fn pattern_tt_is_its_function() {
+        pattern_tt(0);
+        pattern_tt(1);
+        pattern_tt(2);
+        pattern_tt(3);
+    }
+
+    /// node tables of a pattern over arbitrary variable tables, gate by gate (harness-side mirror of AigPattern::eval, checked against it below)
+    fn node_tables(p: &AigPattern, vars: [Tt4; 4]) -> [Tt4; 7] {
+        let mut v = [vars[0], vars[1], vars[2], vars[3], 0, 0, 0];
+        let n = p.ands.len();
+        let mut k = 0;
+        while k < n && k < 3 {
+            let (a, b) = p.ands[k];
+            v[4 + k] = (v[a.0 as usize] ^ if a.1 { !0 } else { 0 }) & (v[b.0 as usize] ^ if b.1 { !0 } else { 0 });
+            k += 1;
+        }
+        v
+    }
+    fn mask(b: bool) -> Tt4 {
+        if b { !0 } else { 0 }
+    }
+    /// transform_pattern(pat,t).tt() == t.apply(pat.tt()), proved the way one proves it by hand; every intermediate fact is first
+    /// ASSERTED (checked by CBMC for all inputs) and only then assumed for the following steps, so nothing is taken on trust:
+    ///   S(x) := the table of x under the input part of t (minterm definition npn_table(x, perm, in_neg, false));  zs[perm[i]] := VAR_TT[i] ^ neg_i
+    ///   (1) induction over the nodes of pat: S(node_i over VAR_TT) == node_i over zs          (variables first, then each gate)
+    ///   (2) AigPattern::eval agrees with the node tables on VAR_TT and on zs                  => pat.eval(zs) == S(pat.tt())
+    ///   (3) transform_pattern(pat,t).eval(VAR_TT) == out_neg ^ pat.eval(zs)                   (edge substitution, real eval)
+    ///   (4) t.apply(f) == out_neg ^ S(f) for f = pat.tt()                                     (real perm_tt / flip_inputs)
+    ///   => (5) the contract, and (6) the library lemma: any (canonical, t) with t.apply(pat.tt()) == canonical gives an entry
+    ///      (canonical, transform_pattern(pat,t)) whose pattern computes canonical (the source's debug_assert_eq in build_library).
+    fn transform_commutes(n: u8, canary: bool) {
+        let pat = any_pattern(n);
+        let t = any_transform();
+        let (p, neg) = (t.perm, t.in_neg);
+        let mut zs = [0u16; 4];
+        zs[p[0] as usize] = VAR_TT[0] ^ mask(neg & 1 != 0);
+        zs[p[1] as usize] = VAR_TT[1] ^ mask(neg & 2 != 0);
+        zs[p[2] as usize] = VAR_TT[2] ^ mask(neg & 4 != 0);
+        zs[p[3] as usize] = VAR_TT[3] ^ mask(neg & 8 != 0);
+        let vp = node_tables(&pat, VAR_TT);
+        let vz = node_tables(&pat, zs);
+        let mut i = 0usize;
+        while i < 4 + n as usize {
+            let s = npn_table(vp[i], p, neg, false);
+            assert!(s == vz[i], "(1) node table under the input transform");
+            kani::assume(s == vz[i]);
+            i += 1;
+        }
+        let o = pat.output;
+        let f = pat.eval(VAR_TT);
+        let fe = vp[o.0 as usize] ^ mask(o.1);
+        assert!(f == fe, "(2) eval == node tables on VAR_TT");
+        kani::assume(f == fe);
+        let g = pat.eval(zs);
+        let ge = vz[o.0 as usize] ^ mask(o.1);
+        assert!(g == ge, "(2) eval == node tables on zs");
+        kani::assume(g == ge);
+        let sf = npn_table(f, p, neg, false);
+        assert!(g == sf, "(2) pat.eval(zs) == S(pat.tt())");
+        kani::assume(g == sf);
         let q = transform_pattern(&pat, t);
         assert!(wf_pattern(&q) && q.size() == pat.size(), "transform_pattern changed the shape of the pattern");
-        assert!(q.tt() == t.apply(pat.tt()), "transform_pattern(pat,t).tt() != t.apply(pat.tt())");
-        let m = any_minterm();
-        assert!(pattern_value_at(&q, assignment(m)) == npn_value_at(pat.tt(), p, neg, o, assignment(m)), "transformed pattern does not compute o ^ f(z)");
+        let qe = q.eval(VAR_TT);
+        assert!(qe == g ^ mask(t.out_neg), "(3) transformed pattern == out_neg ^ pat.eval(zs)");
+        kani::assume(qe == g ^ mask(t.out_neg));
+        let ap = t.apply(f);
+        assert!(ap == sf ^ mask(t.out_neg), "(4) apply == out_neg ^ S");
+        kani::assume(ap == sf ^ mask(t.out_neg));
+        if canary {
+            assert!(q.tt() != 0x8888, "canary: the assumption chain is satisfiable");
+            return;
+        }
+        assert!(q.tt() == t.apply(pat.tt()), "(5) transform_pattern(pat,t).tt() != t.apply(pat.tt())");
+        let canonical: Tt4 = kani::any();
+        kani::assume(t.apply(pat.tt()) == canonical);
+        assert!(q.tt() == canonical, "(6) library entry does not compute its recorded truth table");
     }
-    /// npn_canonical(tt) = (c, t): t is one of the 768 transforms and t.apply(tt) == c, for every tt
-    #[vp_proof(25)]
-    pub fn canonical_transform_maps_to_canonical() {
-        let tt: Tt4 = kani::any();
-        let (c, t) = npn_canonical(tt);
-        assert!(t.apply(tt) == c, "t.apply(tt) != canonical");
-        assert!(t.in_neg < 16 && is_perm(t.perm));
-        assert!(npn_table(tt, t.perm, t.in_neg, t.out_neg) == c, "the returned transform does not map the function to the canonical form");
+    /// for every transform (row of ALL_PERMS x any u8 mask x bool) and every well-formed pattern with n gates; n = 0,1,2,3 = all n <= MAX_ANDS
+    #[vp_proof(17)]
+    pub fn transform_pattern_commutes_with_apply_0_gates() {
+        transform_commutes(0, false);
     }
-    /// ... and c is the least table in the NPN class: c <= T.apply(tt) for every one of the 768 transforms T
-    #[vp_proof(25)]
-    pub fn canonical_is_least_in_class() {
-        let tt: Tt4 = kani::any();
-        let (c, _t) = npn_canonical(tt);
-        let p = ALL_PERMS[any_perm_index()];
-        let neg: u8 = kani::any();
-        let o: bool = kani::any();
-        let other = NpnTransform { perm: p, in_neg: neg, out_neg: o };
-        assert!(c <= other.apply(tt), "a transform reaches a smaller table than the canonical one");
+    #[vp_proof(17)]
+    pub fn transform_pattern_commutes_with_apply_1_gate() {
+        transform_commutes(1, false);
     }
-    /// library, second pass of build_library, one iteration: given an entry (tt, pat) of by_tt with pat.tt() == tt,
-    /// the entry (canonical, canon_pat) offered to `best` satisfies canon_pat.tt() == canonical (the source's debug_assert_eq)
-    #[vp_proof(25)]
-    pub fn library_canonical_entry_computes_its_key() {
-        let pat = any_pattern();
-        let tt = pat.tt();
-        let (canonical, t) = npn_canonical(tt);
-        let canon_pat = transform_pattern(&pat, t);
-        assert!(canon_pat.tt() == canonical, "library entry does not compute its recorded truth table");
-        assert!(canon_pat.size() == pat.size() && wf_pattern(&canon_pat));
+    #[vp_proof(17)]
+    pub fn transform_pattern_commutes_with_apply_2_gates() {
+        transform_commutes(2, false);
     }
-    /// canary: the assumptions of the pattern harnesses are satisfiable with 3 gates (must FAIL)
+    #[vp_proof(17)]
+    pub fn transform_pattern_commutes_with_apply_3_gates() {
+        transform_commutes(3, false);
+    }
+    /// the same statement on the level of single assignments, without tables: the transformed pattern computes out_neg ^ pat(z), z[perm[i]] = y[i] ^ neg_i
+    fn substitutes_inputs(n: u8) {
+        let pat = any_pattern(n);
+        let t = any_transform();
+        let q = transform_pattern(&pat, t);
+        assert!(wf_pattern(&q) && q.size() == pat.size());
+        let y: [bool; 4] = kani::any();
+        let mut z = [false; 4];
+        z[t.perm[0] as usize] = y[0] ^ (t.in_neg & 1 != 0);
+        z[t.perm[1] as usize] = y[1] ^ (t.in_neg & 2 != 0);
+        z[t.perm[2] as usize] = y[2] ^ (t.in_neg & 4 != 0);
+        z[t.perm[3] as usize] = y[3] ^ (t.in_neg & 8 != 0);
+        assert!(pattern_value_at(&q, y) == t.out_neg ^ pattern_value_at(&pat, z), "transformed pattern does not compute o ^ pat(z)");
+    }
+    #[vp_proof(17)]
+    pub fn transform_pattern_substitutes_inputs() {
+        substitutes_inputs(0);
+        substitutes_inputs(1);
+        substitutes_inputs(2);
+        substitutes_inputs(3);
+    }
+    /// canary: the pattern assumptions are satisfiable with 3 gates and a non-trivial function (must FAIL)
     #[vp_proof(17)]
     pub fn canary_pattern_three_gates() {
-        let pat = any_pattern();
-        assert!(pat.size() < 3 || pat.tt() == 0);
+        let pat = any_pattern(3);
+        assert!(pat.tt() == 0);
     }
-    /// canary: npn_canonical does move some table (must FAIL)
-    #[vp_proof(25)]
-    pub fn canary_canonical_not_identity() {
-        let tt: Tt4 = kani::any();
-        let (c, _t) = npn_canonical(tt);
-        assert!(c == tt);
+    /// canary: the assert-then-assume chain of transform_commutes is satisfiable (must FAIL)
+    #[vp_proof(17)]
+    pub fn canary_transform_chain() {
+        transform_commutes(1, true);
     }
 }
